@@ -23,9 +23,11 @@ THEOREMS = [NS + n for n in [
     "has_facebook_comments_spec",
     "reparse_url_partial",
     "reparse_of_parse_partial",
+    "parsed_fields_nonempty",
     "witness_facts",
     "fullReparse_false",
     "excluded_shapes_fail",
+    "fixed_findings_behave",
 ]]
 TABLE_OBLIGATIONS = [NS + n for n in [
     "patterns_unchanged",
@@ -212,7 +214,7 @@ def run_op(op):
     if f == "fb_hyp":
         def hyp():
             r = fb.parse_facebook_url(op["url"], allow_relative_urls=op["rel"])
-            return None if r is None else [reparsable(fb, r), fields_ok(r), finding_shape(r)]
+            return None if r is None else [reparsable(fb, r), chars_ok(r)]
         return lib.guarded(hyp)
     if f == "fb_re":
         from ural import utils
@@ -222,6 +224,8 @@ def run_op(op):
         return {
             "mistakes_hand": fixed,
             "mistakes_generic": fixed,
+            "squeeze_hand": utils.SLASH_SQUEEZE_RE.sub("/", s),
+            "squeeze_generic": _re.sub(utils.SLASH_SQUEEZE_RE, "/", s),
             "mobile": _re.sub(fb.MOBILE_REPLACE_RE, "m.facebook.", s),
             "domain": bool(_re.search(fb.FACEBOOK_DOMAIN_RE, s)),
             "extract": _span(fb.URL_EXTRACT_RE.search(s)),
@@ -323,52 +327,52 @@ def reparsable(fb, r):
             return False
         p = r.parent_id if r.parent_id is not None else r.parent_handle
         a = r.album_id
-        return (seg_ok(p) and seg_ok(r.id) and all(c not in "/?#;" and not c.isspace() for c in a) and no_watch(p)
-                and no_watch(r.id) and p != "videos" and "a." not in a and isid(p) == (r.parent_id is not None))
+        return (seg_ok(p) and seg_ok(r.id) and a != "" and all(c not in "/?#;" and not c.isspace() for c in a) and no_watch(p)
+                and no_watch(r.id) and p != "videos" and isid(p) == (r.parent_id is not None))
     return False
 
 
-def seg_chars(s):
+def seg_all(s):
     return all(c not in "/?#;" and not c.isspace() for c in s)
 
 
-def fields_ok(r):
-    """`Ural.Facebook.fieldsOk`: the character-level hypothesis of `reparse_of_parse_partial`"""
+def seg_chars(s):
+    """`Ural.Facebook.segChars`"""
+    return seg_all(s) and s not in (".", "..")
+
+
+def qval_chars(s):
+    """`Ural.Facebook.qvalChars`"""
+    return all(c not in "&#+%\t\r\n" for c in s)
+
+
+def chars_ok(r):
+    """`Ural.Facebook.charsOk`: the character-level hypothesis of `reparse_of_parse_partial`"""
     t = type(r).__name__
     if t == "FacebookUser":
-        return r.handle is None and qval_ok(r.id)
+        return r.handle is None and qval_chars(r.id)
     if t == "FacebookHandle":
-        return seg_ok(r.handle)
+        return seg_chars(r.handle)
     if t == "FacebookGroup":
         if (r.id is None) == (r.handle is None):
             return False
-        return seg_ok(r.id if r.id is not None else r.handle)
+        return seg_chars(r.id if r.id is not None else r.handle)
     if t == "FacebookPost":
         parents = (r.parent_id, r.parent_handle, r.group_id, r.group_handle)
         if sum(x is not None for x in parents) != 1:
             return False
         if r.parent_id is not None:
-            return qval_ok(r.parent_id) and qval_ok(r.id)
-        return seg_ok([x for x in parents if x is not None][0]) and seg_ok(r.id)
+            return qval_chars(r.parent_id) and qval_chars(r.id)
+        return seg_chars([x for x in parents if x is not None][0]) and seg_chars(r.id)
     if t == "FacebookVideo":
-        return qval_ok(r.id) if r.parent_id is None else (seg_ok(r.parent_id) and seg_ok(r.id))
+        return qval_chars(r.id) if r.parent_id is None else (seg_chars(r.parent_id) and seg_chars(r.id))
     if t == "FacebookPhoto":
         if r.parent_id is None and r.parent_handle is None:
-            return qval_ok(r.id) and all(x is None or qval_ok(x) for x in (r.group_id, r.album_id))
+            return qval_chars(r.id) and all(x is None or qval_chars(x) for x in (r.group_id, r.album_id))
         if (r.parent_id is not None and r.parent_handle is not None) or r.group_id is not None or r.album_id is None:
             return False
         p = r.parent_id if r.parent_id is not None else r.parent_handle
-        return seg_ok(p) and seg_ok(r.id) and seg_chars(r.album_id)
-    return False
-
-
-def finding_shape(r):
-    """`Ural.Facebook.findingShape`"""
-    t = type(r).__name__
-    if t == "FacebookHandle":
-        return r.handle.startswith("people")
-    if t == "FacebookPhoto":
-        return (r.parent_id is not None or r.parent_handle is not None) and r.album_id is not None and "a." in r.album_id
+        return seg_chars(p) and seg_chars(r.id) and seg_all(r.album_id)
     return False
 
 
@@ -512,106 +516,11 @@ def oracle(case):
 
 
 # --------------------------------------------------------------------------------------
-# known findings (KNOWN_FINDINGS.json, patches in notes/fixes/facebook-*.diff)
-# --------------------------------------------------------------------------------------
-def _records(case):
-    """the (string, rel, record) triples the oracle looks at for this case"""
-    fb = fbmod()
-    if case["k"] == "url":
-        todo = [(case["url"], case["rel"])]
-    elif case["k"] == "str":
-        todo = [(case["s"], False), (case["s"], True)]
-    else:
-        todo = []
-    out = []
-    for s, rel in todo:
-        try:
-            r = fb.parse_facebook_url(s, allow_relative_urls=rel)
-        except Exception:  # noqa
-            continue
-        if r is not None:
-            out.append((s, rel, r))
-    return out
-
-
-def _roundtrip_fails(fb, r):
-    try:
-        r2 = fb.parse_facebook_url(r.url)
-    except Exception:  # noqa
-        return False
-    return not (r2 == r and type(r2) is type(r))
-
-
-def _raw_path(s, rel):
-    """the path the parser splits (independent of ural: urllib only)"""
-    u = s
-    if not _re.match(r"(?:[a-zA-Z]{1,64}:)?//", u):
-        u = "http://www.facebook.com/" + u.lstrip("/") if rel and "facebook." not in u else "http://" + u
-    try:
-        return _urlsplit(u).path
-    except ValueError:
-        return ""
-
-
-def kf_fb_empty_segment(case, failure):
-    """KF-C19-FB-1: an empty path segment (`//`) read as an id / a handle, or hiding the /people route"""
-    if "is the empty string" in failure:
-        for s, rel, r in _records(case):
-            name = type(r).__name__
-            empties = [k for k, v in slots_of(r) if v == ""]
-            from_query = name == "FacebookPhoto" and r.parent_id is None and r.parent_handle is None
-            if empties and not from_query and not (name == "FacebookPhoto" and empties == ["album_id"]):
-                return "//" in _raw_path(s, rel)
-        return False
-    if "but its url" in failure and "parses to" in failure:
-        fb = fbmod()
-        for s, rel, r in _records(case):
-            if type(r).__name__ == "FacebookHandle" and r.handle.startswith("people") and _roundtrip_fails(fb, r):
-                return True
-    return False
-
-
-def kf_fb_empty_set_id(case, failure):
-    """KF-C19-FB-2: photo.php?fbid=..&set=g. / set=a. gives group_id / album_id ''"""
-    if "is the empty string" not in failure:
-        return False
-    for s, rel, r in _records(case):
-        if type(r).__name__ == "FacebookPhoto" and r.parent_id is None and r.parent_handle is None and "" in (r.group_id, r.album_id):
-            return True
-    return False
-
-
-def kf_fb_album_prefix(case, failure):
-    """KF-C19-FB-3: /<page>/photos/<album>/<photo>: album read with replace('a.', '')"""
-    if "is the empty string" not in failure and "but its url" not in failure:
-        return False
-    for s, rel, r in _records(case):
-        if type(r).__name__ == "FacebookPhoto" and (r.parent_id is not None or r.parent_handle is not None):
-            if r.album_id == "" or (r.album_id is not None and "a." in r.album_id):
-                return True
-    return False
-
-
-def kf_fb_mobile_host_case(case, failure):
-    """KF-C19-FB-4: convert_facebook_url_to_mobile tests the netloc case-sensitively"""
-    if "raised its foreign-url error on the facebook host" not in failure:
-        return False
-    s = case["url"] if case["k"] == "url" else case.get("s", "")
-    u = s if _re.match(r"(?:[a-zA-Z]{1,64}:)?//", s) else "http://" + s
-    if u.startswith("//"):
-        u = "http:" + u
-    try:
-        netloc = _urlsplit(u).netloc
-    except ValueError:
-        return False
-    return "facebook" not in netloc and "facebook" in netloc.lower()
-
-
-# --------------------------------------------------------------------------------------
 # generators
 # --------------------------------------------------------------------------------------
 # every fixed finding of C19 that concerns ural/facebook.py (KNOWN_FINDINGS.json: FX-C19-f72868e,
-# FX-C19-24fcd80, FX-C19-696e630, FX-C19-3e875d1, FX-C19-d948b00) and DESIGN §7 D45
+# FX-C19-24fcd80, FX-C19-696e630, FX-C19-3e875d1, FX-C19-d948b00, FX-C19-fec1df7, FX-C19-3eab049,
+# FX-C19-ad3e67d, FX-C19-7e5e990) and DESIGN §7 D45
 CORPUS_URLS = [
     "facebook.com/groups/", "facebook.com/groups/x/permalink/", "facebook.com/groups/x/posts/", "facebook.com/x/posts/",
     "facebook.com/posts/1", "facebook.com/x/videos/", "facebook.com/x/photos/", "facebook.com/x/photos/a.1/",
@@ -633,6 +542,19 @@ CORPUS_URLS = [
     "https://notfacebook.com/nasa", "https://facebook.com.evil.org/nasa", "https://evil.org/facebook.com/nasa",
     "https://evil.org/?u=facebook.com", "https://www.facebook.co.uk/nasa", "https://fb.me/nasa", "http://xfb.me/nasa",
     "HTTP://FACEBOOK.COM/nasa", "https://user:pw@www.facebook.com:443/nasa/posts/1", "facebook.com", "facebook.com/", "",
+    # fec1df7 (formerly KF-C19-FB-1): an empty path segment is neither an id nor a handle, nor does it hide a route
+    "https://www.facebook.com/nasa/videos//5", "facebook.com/nasa/videos//5", "facebook.com/x//groups/", "facebook.com/people/a//5",
+    "facebook.com//people", "https://www.facebook.com//people", "facebook.com//nasa", "facebook.com/groups//12345678",
+    "facebook.com/nasa//posts///5", "//nasa//posts//5", "/nasa/videos//5",
+    # 3eab049 (formerly KF-C19-FB-2): an empty set id is no group / album
+    "https://www.facebook.com/photo.php?fbid=1&set=g.", "https://www.facebook.com/photo.php?fbid=1&set=a.",
+    "https://www.facebook.com/photo.php?fbid=1&set=g.&set=a.", "https://www.facebook.com/photo?fbid=1&set=g.&set=a.5",
+    # ad3e67d (formerly KF-C19-FB-3): only the a. prefix is removed from the album segment; an empty album is no photo
+    "https://www.facebook.com/nasa/photos/aa../5", "https://www.facebook.com/nasa/photos/a.a./5", "https://www.facebook.com/nasa/photos/a./5",
+    "https://www.facebook.com/nasa/photos/media.123/5", "https://www.facebook.com/1234567890/photos/a.a.1/5",
+    "https://www.facebook.com/nasa/photos/xa./5",
+    # 7e5e990 (formerly KF-C19-FB-4): the host test of convert_facebook_url_to_mobile ignores case
+    "HTTP://WWW.FACEBOOK.COM/nasa", "FaceBook.com/nasa", "https://M.FACEBOOK.com/nasa?x=1",
 ]
 
 ROUTES = ["watch", "videos", "photo.php", "photo", "photos", "posts", "permalink.php", "story.php", "groups", "permalink",
@@ -840,10 +762,10 @@ def classify(case):
         r = fb.parse_facebook_url(u, allow_relative_urls=case["rel"])
         labs.append("result=" + (type(r).__name__ if r is not None else "None"))
         if r is not None:
-            if fields_ok(r) and not finding_shape(r):
-                labs.append("reparse=proved")  # hypotheses of reparse_of_parse_partial
+            if chars_ok(r):
+                labs.append("reparse=proved")  # hypothesis of reparse_of_parse_partial
             elif in_scope(r):
-                labs.append("reparse=demanded-not-proved")  # in the oracle's scope, outside the theorem's: the known findings
+                labs.append("reparse=demanded-not-proved")  # in the oracle's scope, outside the theorem's: expected 0
             else:
                 labs.append("reparse=not-demanded")
     except Exception as e:  # noqa
